@@ -434,9 +434,12 @@ package wire
 //@   modifies p.*
 
 //@ func (p *TransportParameters) readPreferredAddress
-//@   trusted fixed-layout decoder of preferred_address (netip values are external); assumed contract: success only with the announced length
-//@   ensures implies(result == nil, len(b) >= expectedLen && expectedLen >= 0)
-//@   modifies p.*
+//@   props C08
+//@   requires p != nil
+//@   ensures [length-consistent] implies(result == nil, len(b) >= expectedLen && expectedLen >= 0)
+//@   ensures [exact-length] implies(result == nil, expectedLen == 41 + int(b[24]) && 1 <= b[24] && b[24] <= 20)
+//@   ensures [connection-id-length] implies(result == nil, p.PreferredAddress != nil && p.PreferredAddress.ConnectionID.l == b[24])
+//@   modifies p.PreferredAddress
 
 //@ func (p *TransportParameters) unmarshal
 //@   props C08
@@ -463,9 +466,32 @@ package wire
 //@   modifies nothing
 
 // ---------------- Version Negotiation (C13) ----------------
-//@ func ParseVersionNegotiationPacket
-//@   trusted parser of the Version Negotiation packet body; assumed to have no side effects
+//@ extern (r encoding/binary.bigEndian) Uint32
+//@   requires len(b) >= 4
+//@   ensures result == uint32(b[0]) * 16777216 + uint32(b[1]) * 65536 + uint32(b[2]) * 256 + uint32(b[3])
 //@   modifies nothing
+
+//@ func ParseArbitraryLenConnectionIDs
+//@   props C13
+//@   ensures [consumed] implies(result3 == nil, 7 <= bytesParsed && bytesParsed <= len(data) && bytesParsed == 7 + int(data[5]) + int(data[6 + int(data[5])]))
+//@   ensures [ids] implies(result3 == nil, len(dest) == int(data[5]) && len(src) == int(data[6 + int(data[5])]))
+//@   ensures [error-no-output] implies(result3 != nil, bytesParsed == 0 && dest == nil && src == nil)
+//@   modifies nothing
+
+//@ spec be32(b []byte, o int) int = int(b[o]) * 16777216 + int(b[o+1]) * 65536 + int(b[o+2]) * 256 + int(b[o+3])
+//@ spec vnhdr(b []byte) int = 7 + int(b[5]) + int(b[6 + int(b[5])])
+//@ func ParseVersionNegotiationPacket
+//@   props C13
+//@   requires len(b) <= 1099511627776
+//@   ensures [versions-non-empty] implies(result3 == nil, len(result2) >= 1 && 4 * len(result2) == len(b) - vnhdr(b))
+//@   ensures [versions-from-packet] implies(result3 == nil, forall(k, 0, len(result2), int(result2[k]) == be32(b, vnhdr(b) + 4 * k)))
+//@   ensures [error-no-output] implies(result3 != nil, dest == nil && src == nil && result2 == nil)
+//@   modifies nothing
+//@ loop ParseVersionNegotiationPacket #0
+//@   invariant 0 <= i && len(b) % 4 == 0 && 4 * i + len(b) == 4 * len(versions) && len(b) >= 0 && n == vnhdr(old(b)) && 4 * len(versions) == len(old(b)) - n
+//@   invariant forall(j, 0, len(b), b[j] == old(b)[n + 4 * i + j])
+//@   invariant forall(k, 0, i, int(versions[k]) == be32(old(b), n + 4 * k))
+//@   modifies versions[*]
 
 //@ func (h *ExtendedHeader) Log
 //@   trusted logging only
